@@ -253,8 +253,8 @@ def run_property(prop, tier, seed, update_baseline=False):
     # ---- bounded stand-in 1: native contract search on every kernel (incl. out-of-subset ones)
     bounded = {"functions": {}, "evaluations": 0}
     for c in kernels:
-        if c.no_native or c.trusted and not c.module.startswith("pyxform"):
-            bounded["functions"][c.fid] = {"skipped": c.no_native or "external"}
+        if not native.searchable(c, reg.native_env.get("EXHAUSTIVE", {}).get(c.fid)):
+            bounded["functions"][c.fid] = {"skipped": c.no_native or "no generator for record/opaque parameters"}
             continue
         nc = nc_for(c.fid)
         try:
